@@ -620,7 +620,7 @@ func c06Sorting(p *Prog, r *Report) {
 	for _, a := range appends {
 		rs := p.RelsAt(rm, a)
 		for k := range rs {
-			if strings.HasPrefix(k, "seen[") && strings.HasSuffix(k, "] == false") || (strings.Contains(k, "[") && strings.HasSuffix(k, "] == false")) {
+			if strings.Contains(k, "[") && (strings.HasSuffix(k, "] == false") || strings.HasSuffix(k, "]#1 == false") || strings.HasPrefix(k, "false == ") && (strings.HasSuffix(k, "]") || strings.HasSuffix(k, "]#1"))) {
 				dedup = true
 			}
 		}
@@ -631,8 +631,59 @@ func c06Sorting(p *Prog, r *Report) {
 	if !dedup && compact != nil && srt != nil && dominatesInstr(srt, compact) {
 		dedup = true
 	}
+	// a hand-written remover of adjacent repeats applied after the sort
+	if !dedup && srt != nil && join != nil {
+		if c, ok := join.Call.Args[0].(*ssa.Call); ok && dominatesInstr(srt, c) {
+			if g := calleeOf(&c.Call); g != nil && g.Pkg == pi.Pkg && len(c.Call.Args) == 1 && c.Call.Args[0] == srt.Call.Args[0] && dropsAdjacentRepeats(p, g) {
+				dedup = true
+			}
+		}
+	}
 	if !dedup && compact != nil {
 		why = "slices.Compact removes only adjacent duplicates and runs before the sort: a repeated import that is not adjacent in file order is printed twice"
 	}
 	r.Check("R06e", "PrintImports prints each import once", pi.Pos(), dedup, why)
+}
+
+// dropsAdjacentRepeats: g(xs []string) []string appends an element only if it is the first or differs from
+// its predecessor (every path prefix reaching the append carries one of those facts).
+func dropsAdjacentRepeats(p *Prog, g *ssa.Function) bool {
+	if len(g.Params) != 1 {
+		return false
+	}
+	xs := g.Params[0].Name()
+	n, ok := 0, true
+	p.instrs(g, func(b *ssa.BasicBlock, i int, in ssa.Instruction) {
+		c, isC := in.(*ssa.Call)
+		if !isC {
+			return
+		}
+		if bi, isB := c.Call.Value.(*ssa.Builtin); !isB || bi.Name() != "append" {
+			return
+		}
+		n++
+		pre, okp := p.prefixFactsAt(g, c)
+		if !okp || len(pre) == 0 {
+			ok = false
+			return
+		}
+		for _, rs := range pre {
+			good := false
+			for k := range rs {
+				if strings.HasSuffix(k, " <= 0") && strings.Contains(k, "rangeindex") {
+					good = true // first element
+				}
+				if j := topLevelIndex(k, " != "); j >= 0 {
+					a, b := k[:j], k[j+4:]
+					if strings.HasPrefix(a, xs+"[") && strings.HasPrefix(b, xs+"[") && (strings.Contains(a, " - 1)") != strings.Contains(b, " - 1)")) {
+						good = true // differs from its predecessor
+					}
+				}
+			}
+			if !good {
+				ok = false
+			}
+		}
+	})
+	return n == 1 && ok
 }
